@@ -96,7 +96,8 @@ class C16(Prop):
         "restore_nesting_bounded", "nesting_test_only_refuses", "saveObject_leaves_no_tmp", "saveObject_error_touches_nothing",
         "saveObject_error_iff_too_deep", "tmpName_eq", "tmpName_never_a_save_file", "mapping_insert_spec",
         "restore_mapping_all_found", "hash_sites_as_modelled", "error_messages_as_in_source",
-        "save_structure_bytes_as_in_source", "save_atomic_partial")]
+        "save_structure_bytes_as_in_source", "save_atomic_partial", "elem_dispatch_spec", "key_dispatch_spec",
+        "value_dispatch_spec", "svalue_dispatch_spec", "restore_dispatch_as_in_source")]
     witness_theorems = ["NV.C16.Witness." + t for t in (
         "float_keys_collapse", "roundtripFloatKeys_Full_false", "cr_round_trips", "stray_byte_in_array_ok",
         "inf_is_written_as_number", "same_name_saved", "same_name_variables", "old_mask_loses_the_key")]
@@ -108,41 +109,50 @@ class C16(Prop):
     thorough_n = 20000
     search_n = 1500
     design_ref = "5/C16"
-    technique = ("Lean 4 proof (structural induction over values and over all byte strings) + translator-generated "
-                 "constants + model/implementation correspondence under ASan/UBSan + crash-point enumeration")
+    technique = ("Lean 4 proof (structural induction over values, over all byte strings, over all key sequences and hash "
+                 "functions; refinement preD -> pre) + translator-generated constants, escape sets, message tables, structure "
+                 "bytes and source-statement comparisons + model/implementation correspondence under ASan/UBSan + crash-point "
+                 "and failure enumeration + lookup of every entry of every printed mapping")
     level_text = ("Lean 4 theorems about an executable model of save_svalue / svalue_save_size / restore_size / "
-                  "restore_internal_size / restore_array / restore_class / restore_mapping / restore_string / parse_numeric / "
-                  "restore_svalue / safe_restore_svalue and of the line format and call script of save_object / "
-                  "restore_object (lib/lpc/object.c, lib/lpc/mapping.c), for all values and ALL byte strings; floats and "
-                  "mblen are parameters with stated contracts; the model is tied to the source by regenerated constants and "
-                  "by running the real efuns and the model on the same generated values, truncated / mutated texts and "
-                  "crash points (traces identical); the Lean oracle judges every implementation trace")
+                  "restore_internal_size (incl. its nesting limit) / restore_array / restore_class / restore_mapping (incl. the "
+                  "hash table: bucket choice, growMap in the middle of a restore, lookup) / restore_string / parse_numeric / "
+                  "restore_svalue / safe_restore_svalue and of the line format, the dry run and the call script of save_object / "
+                  "restore_object over the real program trees (lib/lpc/object.c, lib/lpc/mapping.c), for all values, ALL byte "
+                  "strings, all crash points (also inside a call), every hash function; floats and mblen are parameters with "
+                  "stated contracts; the model is tied to the source by regenerated constants / tables / statement comparisons "
+                  "with bridging lemmas and by running the real efuns and the model on the same generated values, truncated / "
+                  "mutated / endlessly nested texts and crash points (traces identical); the Lean oracle judges every "
+                  "implementation trace, incl. that every entry of a restored mapping is found through its key")
     level_note = ("trusted: Lean kernel; extract.py; the correspondence harness (differential: only generated cases; "
-                  "stdio-level interposition, rename() atomic by assumption); FloatOps / MbLen contracts are hypotheses "
-                  "(validated on generated floats / UTF-8 by the run); hash-table order of mappings is an arbitrary "
-                  "list order in the model; size limits of mappings, C stack depth and the heap are not modelled")
-    rule = ("cases = corpus + known-finding inputs + boundary list (int64 extremes, every byte 1..127 in strings at top "
+                  "stdio-level interposition, rename() atomic by assumption, a crash inside a call is a theorem only); FloatOps / "
+                  "MbLen contracts are hypotheses (validated on generated floats / UTF-8 by the run); hash-table ORDER of a saved "
+                  "mapping is an arbitrary list order in the round-trip model (the bucket logic itself is modelled separately in "
+                  "Hash.lean, starting from a power-of-two table); the mapping size limit and the heap are not modelled")
+    rule = ("cases = corpus + known-finding inputs + boundary list (int64 extremes, every byte 1..255 in strings at top "
             "level / in arrays / as mapping key, escapes, integral / tiny / huge floats, empty containers, classes, "
-            "nesting 24..26, hand-made damaged texts, object files, crash points) + seeded random cases of five kinds: "
+            "nesting 24..26 on the save side and 25 / 26 / 27 / 300 / 150000 levels on the restore side, mappings whose table "
+            "grows during the restore, hand-made damaged texts, object files, a too deep value in every variable position, "
+            "crash points) + seeded random cases of six kinds: "
             "round trips of random nested values; valid save texts mutated 1-3 times (truncate / replace / delete / "
             "insert / duplicate / swap, biased to the format's special bytes); every prefix of a valid text; "
-            "save_object / restore_object (both noclear flags) incl. damaged files; crash-point and failure enumeration of "
-            "save_object; generated inheritance trees (static / plain / private / public inherits, depth <= 3, shadowed names) "
-            "on the REAL dumped program trees; 24-variable objects; save files of another program version; file names incl. "
-            "0/1-character names and paths of 200..300 bytes (temporary-file name). Quantifier coverage measured per run "
-            "(histogram: error kinds, restored types, class values, nesting >= 25, CR strings, non-finite floats, noclear "
-            "restores, static inherits). "
+            "save_object / restore_object (both noclear flags) incl. damaged files and too deep values; crash-point and failure "
+            "enumeration of save_object; generated inheritance trees (static / plain / private / public inherits, depth <= 3, "
+            "shadowed names) on the REAL dumped program trees; 24-variable objects; save files of another program version; file "
+            "names incl. 0/1-character names and paths of 200..300 bytes (temporary-file name); mappings of 5..64 pairs with keys "
+            "spread over many buckets in hand-chosen file order (growth thresholds of 8/16/32/64 buckets). Every case starts "
+            "without a save file. Quantifier coverage measured per run (histogram). "
             "non-trivial = trace has >= 2 lines; distinct = distinct canonical implementation trace")
-    not_covered = ["mapping size limit (\"Mapping too large\") and out-of-memory paths of the restore are not modelled",
-                   "C stack exhaustion by deeply nested text (recursion depth = nesting depth) is not modelled",
-                   "hash-table layout of mappings (the order of entries in the saved text) is abstracted to a list order; "
+    not_covered = ["mapping size limit (\"Mapping too large\"), allocate_mapping's size computation and out-of-memory paths of the "
+                   "restore are not modelled (the hash-table theorems start from a power-of-two table)",
+                   "hash-table layout of a SAVED mapping (the order of entries in the saved text) is abstracted to a list order; "
                    "traces are compared after sorting entries",
-                   "disk-full partial fprintf inside stdio buffers: failures / crashes are injected at stdio-call granularity",
+                   "a crash inside a stdio call (partial write of a block) is covered by a theorem over the file-system model only; "
+                   "on the real driver failures / crashes are injected at stdio-call granularity",
                    "non-UTF-8 multibyte locales (MbLen.cont fails for Big5/GBK/Shift-JIS; the driver always selects UTF-8)",
                    "msameval() identifies a float key with the integer key of the same bit pattern (0.0 / 0): values "
                    "with such key pairs are not generated",
-                   "float keys of mappings and valid non-ASCII UTF-8 strings are outside the round-trip THEOREM "
-                   "(correspondence only)"]
+                   "float keys of mappings are outside the round-trip THEOREM (open finding K5: correspondence only); "
+                   "two variables of one name at different inheritance levels (open finding K6)"]
 
     def gen_extra(self, ctx, bdir):
         """constants and the escape set of the save format, read from the source text of object.c"""
@@ -274,8 +284,35 @@ class C16(Prop):
             for lit in re.findall(r"\*\(\*buf\)(?:\+\+)?\s*=\s*'((?:\\.|[^'\\]))'", sv[i:j]):
                 out.append({"\\0": 0, "\\\\": 92, "\\'": 39}.get(lit, ord(lit[-1])))
             return out
+        # the characters the restore functions dispatch on: the `case 'x':` labels of their switch over the next character
+        # (restore_mapping has two: key, value) and the characters compared with `*cp` behind a `(`
+        def cases_of(start, end, site):
+            bd = section(start, end, site)
+            parts = bd.split("switch (c = *cp++)")[1:]
+            if not parts:
+                raise X.TieBroken("site:" + site, "switch over the next character not found")
+            esc = {"\\\\": 92, "\\'": 39, "\\r": 13, "\\n": 10, "\\0": 0}
+            labels = [[esc.get(x, ord(x[-1])) for x in re.findall(r"case '((?:\\.|[^'\\]))':", q)] for q in parts]
+            openers = [esc.get(x, ord(x[-1])) for x in re.findall(r"\*cp(?:\+\+)? == '((?:\\.|[^'\\]))'", bd)]
+            return labels, openers
+        d_arr = cases_of("static int restore_array (char **str, svalue_t * ret) {", "int restore_string (char *val", "restore_array")
+        d_cls = cases_of("static int restore_class (char **str, svalue_t * ret) {", "static int restore_array (char **str, svalue_t * ret) {", "restore_class")
+        d_map = cases_of("static int restore_mapping (char **str, svalue_t * sv) {", "static int restore_class (char **str, svalue_t * ret) {", "restore_mapping")
+        d_sv = cases_of("int restore_svalue (char *cp, svalue_t * v) {", "int safe_restore_svalue", "restore_svalue")
+        d_ssv = cases_of("int safe_restore_svalue (char *cp, svalue_t * v) {", "static int fgv_recurse", "safe_restore_svalue")
+        if len(d_map[0]) != 2:
+            raise X.TieBroken("site:restore_mapping", "expected two switches (key, value)")
+        dispatch = ("/-- `case 'x':` labels of the switch over the next character, in source order, and the characters compared with\n"
+                    "    `*cp` behind a `(` -/\n"
+                    "def restoreArrayCases : List Nat := %s\ndef restoreClassCases : List Nat := %s\n"
+                    "def restoreMappingKeyCases : List Nat := %s\ndef restoreMappingValueCases : List Nat := %s\n"
+                    "def restoreSvalueCases : List Nat := %s\ndef safeRestoreSvalueCases : List Nat := %s\n"
+                    "def restoreOpeners : List (List Nat) := %s"
+                    % (d_arr[0][0], d_cls[0][0], d_map[0][0], d_map[0][1], d_sv[0][0], d_ssv[0][0],
+                       [d_arr[1], d_cls[1], d_map[1], d_sv[1], d_ssv[1]]))
         lstr = lambda x: '"' + x.replace("\\", "\\\\").replace('"', '\\"') + '"'
         return "\n".join([
+            dispatch,
             "/-- restore_variable(): `if (rc & ROB_x) error (msg)` chain, in order -/\ndef restoreVariableMessages : List (String × String) := [%s]"
             % ", ".join("(%s, %s)" % (lstr(a), lstr(b)) for a, b in rv_msgs),
             "/-- restore_object_from_buff(): the same chain with the variable name (`%%s`) -/\n"
